@@ -487,6 +487,33 @@ Section Spec.
                 else None
     | _ => Some SErr
     end.
+  (* on ANY byte string (the manual is silent about invalid UTF-8; this is what the code does, stated per
+     character): every well-formed UTF-8 sequence is copied with its ASCII letters mapped, every byte that is not
+     part of one becomes U+FFFD *)
+  Definition fffd : bytes := [239; 191; 189]%N.
+  Definition well_formed (c : N * bytes) : bool := bytes_eqb (encode_rune (fst c)) (snd c).
+  Definition s_case (up : bool) (c : N) : N :=
+    if up then (if (97 <=? c)%N && (c <=? 122)%N then (c - 32)%N else c)
+    else (if (65 <=? c)%N && (c <=? 90)%N then (c + 32)%N else c).
+  Definition s_ascii_any (up : bool) (a : mv) : sres :=
+    match a with
+    | MStr s => SVal (MStr (flat_map (fun c => if well_formed c then map (s_case up) (snd c) else fffd) (chunks s)))
+    | _ => SErr
+    end.
+  (* implode on any array of numbers: a number that is not a Unicode scalar value (negative, beyond U+10FFFF, a
+     surrogate; fractions are truncated first) gives U+FFFD -- the manual only says "the inverse of explode" *)
+  Definition s_implode_any (a : mv) : sres :=
+    match a with
+    | MArr l =>
+        if forallb is_mnum l then
+          SVal (MStr (flat_map (fun x => match as_index x with
+                                         | Some z => if (0 <=? z) && (z <=? max_rune) && negb ((55296 <=? z) && (z <=? 57343))
+                                                     then encode_rune (Z.to_N z) else fffd
+                                         | None => []
+                                         end) l))
+        else SErr
+    | _ => SErr
+    end.
   Definition s_utf8bytelength (a : mv) : sres := match a with MStr s => SVal (MInt (mlen s)) | _ => SErr end.
 
   (* getpath: follow keys / indices; null absorbs *)
@@ -541,6 +568,34 @@ Section Spec.
                 else None
     | _ => Some SErr
     end.
+  (* slices with EVERY kind of bound, of arrays and of arbitrary byte strings (by characters: well-formed UTF-8
+     sequences, every other byte counting as one character and kept as it is).  A bound is null (open), an integer,
+     or a double: the start is truncated toward zero, the end rounded up, BEFORE a negative bound is counted from the
+     end (the manual is silent about fractional bounds; jq adds the length first) *)
+  Definition s_int_bound (is_end : bool) (b : mv) : option Z :=
+    match b with
+    | MInt _ => as_index b
+    | MFlt f => Some (if is_end then float_to_int (fnearbyint mode_UP f) else float_to_int f)
+    | _ => None
+    end.
+  Definition clampz (len lo i : Z) : Z := Z.max lo (Z.max 0 (Z.min len (if i <? 0 then i + len else i))).
+  Definition s_slice_any (a e s : mv) : sres :=
+    let go (len : Z) (cut : Z -> Z -> mv) : sres :=
+      match (match s with MNull => Some 0 | _ => option_map (clampz len 0) (s_int_bound false s) end) with
+      | None => SErr
+      | Some st =>
+          match (match e with MNull => Some len | _ => option_map (clampz len st) (s_int_bound true e) end) with
+          | None => SErr
+          | Some en => SVal (cut st en)
+          end
+      end in
+    match a with
+    | MNull => SVal MNull
+    | MArr l => go (mlen l) (fun st en => MArr (firstn (Z.to_nat (en - st)) (skipn (Z.to_nat st) l)))
+    | MStr t => go (mlen (chunks t))
+                   (fun st en => MStr (flat_map snd (firstn (Z.to_nat (en - st)) (skipn (Z.to_nat st) (chunks t)))))
+    | _ => SErr
+    end.
   (* .[k] *)
   Definition s_index2 (a k : mv) : option sres :=
     match k with
@@ -564,14 +619,33 @@ Section Spec.
     | MObj m => match a with
                 | MNull => Some (SVal MNull)
                 | _ => match mget m (codes "start"), mget m (codes "end") with
-                       | Some s, Some e => s_slice a e s
+                       | Some s, Some e => Some (s_slice_any a e s)
                        | _, _ => Some SErr
                        end
                 end
-    | MArr _ => None                 (* sub-array search: see indices *)
+    | MArr n => Some (match a with         (* .[array]: the positions where it occurs as a sub-array (= indices) *)
+                      | MNull => SVal MNull
+                      | MArr l => SVal (MArr (map mnat (positions l n)))
+                      | _ => SErr
+                      end)
     | _ => Some SErr
     end.
 
+  (* getpath with EVERY key type: the fold of .[k] (null / arrays / objects are indexed; anything else is an error) *)
+  Fixpoint s_getpath_any (p : list mv) (a : mv) : option sres :=
+    match p with
+    | [] => Some (SVal a)
+    | k :: r =>
+        match a with
+        | MNull | MArr _ | MObj _ =>
+            match s_index2 a k with
+            | Some (SVal w) => s_getpath_any r w
+            | Some SErr => Some SErr
+            | None => None
+            end
+        | _ => Some SErr
+        end
+    end.
   (* tonumber: numbers are returned; a string must be a number text of the jq lexer
      ([+-]? digits [. digits] [e [+-] digits], a leading or trailing dot allowed) and is then the number it
      writes: an integer when it has integer syntax, otherwise the double ParseFloat reads *)
@@ -634,6 +708,114 @@ Section Spec.
     end.
   Definition s_cmp (test : comparison -> bool) (a b : mv) : sres := SVal (MBool (test (mcmp a b))).
 
+  (* ---- bsearch(t): on an array whose elements below t (documented order) all come before the others -- in
+     particular on every sorted array -- the index of the first element not below t when that element
+     equals t, otherwise -1 - (that insertion point).  Other arrays: not documented (None). *)
+  Fixpoint s_lower (t : mv) (l : list mv) : nat :=
+    match l with x :: r => if mltb x t then S (s_lower t r) else O | [] => O end.
+  Definition s_partitioned (t : mv) (l : list mv) : bool :=
+    forallb (fun x => negb (mltb x t)) (skipn (s_lower t l) l).
+  Definition s_bsearch (a t : mv) : option sres :=
+    match a with
+    | MArr l =>
+        if s_partitioned t l then
+          let i := s_lower t l in
+          Some (SVal (MInt (match nth_error l i with
+                            | Some x => if meq x t then Z.of_nat i else -1 - Z.of_nat i
+                            | None => -1 - Z.of_nat i
+                            end)))
+        else None
+    | _ => Some SErr
+    end.
+
+  (* ---- @html @uri @urid @base64 @base64d on strings (sequences of bytes < 256); other inputs are first
+     converted by tostring, whose number text is C10's subject: no entry ------------------------------ *)
+  Definition is_bytes (s : bytes) : bool := forallb (fun c => (c <? 256)%N) s.
+  Definition in_text (c : N) (t : string) : bool := existsb (N.eqb c) (codes t).
+  Fixpoint pos_in (c : N) (l : list N) : option N :=
+    match l with
+    | [] => None
+    | x :: r => if N.eqb c x then Some 0%N else option_map N.succ (pos_in c r)
+    end.
+  Definition s_html (s : bytes) : bytes :=
+    flat_map (fun c => if (c =? 60)%N then codes "&lt;" else if (c =? 62)%N then codes "&gt;"
+                       else if (c =? 38)%N then codes "&amp;" else if (c =? 39)%N then codes "&apos;"
+                       else if (c =? 34)%N then codes "&quot;" else [c]) s.
+  (* RFC 3986 unreserved characters are kept, every other byte becomes %XX (upper-case hex) *)
+  Definition s_hexdigit (n : N) : N := nth (N.to_nat n) (codes "0123456789ABCDEF") 0%N.
+  Definition s_uri (s : bytes) : bytes :=
+    flat_map (fun c => if in_text c "ABCDEFGHIJKLMNOPQRSTUVWXYZabcdefghijklmnopqrstuvwxyz0123456789-_.~" then [c]
+                       else [37%N; s_hexdigit (c / 16); s_hexdigit (c mod 16)]) s.
+  Definition s_hexval (c : N) : option N :=
+    match pos_in c (codes "0123456789ABCDEF") with
+    | Some v => Some v
+    | None => pos_in c (codes "0123456789abcdef")
+    end.
+  (* every %XX becomes the byte XX; a % not followed by two hex digits is an error *)
+  Fixpoint s_urid (s : bytes) : option bytes :=
+    match s with
+    | [] => Some []
+    | c :: r =>
+        if (c =? 37)%N then
+          match r with
+          | a :: b :: r' => match s_hexval a, s_hexval b, s_urid r' with
+                            | Some x, Some y, Some t => Some ((16 * x + y)%N :: t)
+                            | _, _, _ => None
+                            end
+          | _ => None
+          end
+        else option_map (cons c) (s_urid r)
+    end.
+  (* RFC 4648: 24-bit groups cut into four 6-bit indices into the alphabet; '=' padding *)
+  Definition s_b64c (n : N) : N :=
+    nth (N.to_nat n) (codes "ABCDEFGHIJKLMNOPQRSTUVWXYZabcdefghijklmnopqrstuvwxyz0123456789+/") 0%N.
+  Fixpoint s_b64 (s : bytes) : bytes :=
+    (match s with
+     | a :: b :: c :: r =>
+         let n := a * 65536 + b * 256 + c in
+         s_b64c (n / 262144) :: s_b64c ((n / 4096) mod 64) :: s_b64c ((n / 64) mod 64) :: s_b64c (n mod 64) :: s_b64 r
+     | [a; b] => let n := a * 65536 + b * 256 in [s_b64c (n / 262144); s_b64c ((n / 4096) mod 64); s_b64c ((n / 64) mod 64); 61]
+     | [a] => let n := a * 65536 in [s_b64c (n / 262144); s_b64c ((n / 4096) mod 64); 61; 61]
+     | [] => []
+     end)%N.
+  (* @base64d: "the inverse of @base64": on a text that IS the encoding of a byte string, that byte string.
+     [s_b64_cand] only proposes the candidate; the entry is guarded by re-encoding it.  Other texts (missing
+     padding, line breaks, stray bits): not documented (None). *)
+  Fixpoint s_b64_cand (fuel : nat) (t : bytes) : bytes :=
+    (match fuel with
+     | O => []
+     | S f =>
+         let v c := match pos_in c (codes "ABCDEFGHIJKLMNOPQRSTUVWXYZabcdefghijklmnopqrstuvwxyz0123456789+/") with
+                    | Some n => n | None => 0 end in
+         match t with
+         | a :: b :: c :: d :: r =>
+             let n := v a * 262144 + v b * 4096 + v c * 64 + v d in
+             if c =? 61 then [n / 65536]
+             else if d =? 61 then [n / 65536; (n / 256) mod 256]
+             else n / 65536 :: (n / 256) mod 256 :: n mod 256 :: s_b64_cand f r
+         | _ => []
+         end
+     end)%N.
+  Definition s_b64d (t : bytes) : option bytes :=
+    let s := s_b64_cand (List.length t) t in
+    if is_bytes s && bytes_eqb (s_b64 s) t then Some s else None.
+  Definition s_text (f : bytes -> option sres) (a : mv) : option sres :=
+    match a with MStr s => if is_bytes s then f s else None | _ => None end.
+
+  (* fmax / fmin as C99 documents them: a NaN argument is ignored; of two zeros, fmax prefers +0, fmin -0 *)
+  Definition s_fmax (x y : float) : float :=
+    if fis_nan x then y else if fis_nan y then x
+    else match Bcompare x y with
+         | Some Lt => y | Some Gt => x
+         | _ => if fsign x then y else x
+         end.
+  Definition s_fmin (x y : float) : float :=
+    if fis_nan x then y else if fis_nan y then x
+    else match Bcompare x y with
+         | Some Lt => x | Some Gt => y
+         | _ => if fsign x then x else y
+         end.
+
   Definition spec_call (name : string) (v : jv) (args : list jv) : option sres :=
     let a := denote v in
     let xs := map denote args in
@@ -646,8 +828,8 @@ Section Spec.
         else if is "min" then Some (s_min a) else if is "max" then Some (s_max a)
         else if is "sort" then s_sort a else if is "unique" then s_unique a
         else if is "transpose" then Some (s_transpose a)
-        else if is "explode" then Some (s_explode a) else if is "implode" then s_implode a
-        else if is "ascii_downcase" then s_ascii false a else if is "ascii_upcase" then s_ascii true a
+        else if is "explode" then Some (s_explode a) else if is "implode" then Some (s_implode_any a)
+        else if is "ascii_downcase" then Some (s_ascii_any false a) else if is "ascii_upcase" then Some (s_ascii_any true a)
         else if is "utf8bytelength" then Some (s_utf8bytelength a)
         else if is "tonumber" then s_tonumber a else if is "abs" then Some (s_abs a)
         else if is "toboolean" then Some (s_toboolean a)
@@ -660,6 +842,13 @@ Section Spec.
         else if is "trunc" then Some (s_math1 (fnearbyint mode_ZR) a) else if is "round" then Some (s_math1 (fnearbyint mode_NA) a)
         else if is "rint" then Some (s_math1 (fnearbyint mode_NE) a) else if is "nearbyint" then Some (s_math1 (fnearbyint mode_NE) a)
         else if is "fabs" then Some (s_math1 fabs a) else if is "sqrt" then Some (s_math1 fsqrt a)
+        else if is "infinite" then Some (SVal (MFlt (finf false))) else if is "nan" then Some (SVal (MFlt fnan))
+        else if is "_tohtml" then s_text (fun s => Some (SVal (MStr (s_html s)))) a
+        else if is "_touri" then s_text (fun s => Some (SVal (MStr (s_uri s)))) a
+        else if is "_tourid" then s_text (fun s => Some (match s_urid s with Some t => SVal (MStr t) | None => SErr end)) a
+        else if is "_tobase64" then s_text (fun s => Some (SVal (MStr (s_b64 s)))) a
+        else if is "_tobase64d" then s_text (fun s => option_map (fun t => SVal (MStr t)) (s_b64d s)) a
+        else if is "error" then Some SErr else if is "halt" then Some SErr else if is "halt_error" then Some SErr
         else None
     | [x] =>
         if is "has" then Some (s_has a x)
@@ -676,7 +865,9 @@ Section Spec.
         else if is "_unique_by" then s_unique_by a x
         else if is "_min_by" then Some (s_minmax_by true a x) else if is "_max_by" then Some (s_minmax_by false a x)
         else if is "flatten" then s_flatten a (Some x)
-        else if is "getpath" then match x with MArr p => s_getpath p a | _ => Some SErr end
+        else if is "bsearch" then s_bsearch a x
+        else if is "error" then Some SErr else if is "halt_error" then Some SErr
+        else if is "getpath" then match x with MArr p => s_getpath_any p a | _ => Some SErr end
         else if is "split" then match a, x with
                                 | MStr s, MStr t => option_map (fun ps => SVal (MArr (map MStr ps))) (s_split s t)
                                 | _, _ => Some SErr
@@ -694,8 +885,9 @@ Section Spec.
         else if is "_greatereq" then Some (s_cmp (fun c => match c with Lt => false | _ => true end) x y)
         else if is "_alternative" then Some (SVal (match x with MNull | MBool false => y | _ => x end))
         else if is "_index" then s_index2 x y
+        else if is "fmax" then Some (s_math2 s_fmax x y) else if is "fmin" then Some (s_math2 s_fmin x y)
         else None
-    | [x; y; z] => if is "_slice" then s_slice x y z else None
+    | [x; y; z] => if is "_slice" then Some (s_slice_any x y z) else None
     | _ => None
     end)%string.
 End Spec.
